@@ -174,7 +174,12 @@ def run_pack(case, scratch, variant="asan", extra_args=(), env=None, preload=Non
         with open(lf, "wb") as fh:
             fh.write(line)
         args = [a for a in args if a not in ("-k", "-H")]
-        args += ["-F", lf]
+        if g.get("bare"):
+            # no directory part in the pack file name and no --pack-dir: paths are relative to the current directory
+            args += ["-F", "list.txt"]
+            cwd = ind
+        else:
+            args += ["-F", lf]
     args.append(out)
     r = vcommon.run([vcommon.tool(variant, "gensquashfs")] + list(extra_args) + args, env=e, cwd=cwd, preload=preload, timeout=timeout)
     return r, out
